@@ -18,7 +18,7 @@ SIGS_V1 = {
     "get_parameter_section": ([I32, I32, I32, I32], I32), "log_event": ([I32, I32], I32),
     "get_receive_invoker": ([I32], None), "get_receive_self_address": ([I32], None), "get_receive_self_balance": ([], I64),
     "get_receive_sender": ([I32], None), "get_receive_owner": ([I32], None), "get_receive_entrypoint_size": ([], I32),
-    "get_receive_entrypoint": ([I32], None), "get_slot_time": ([], I64),
+    "get_receive_entrypoint": ([I32], None), "get_slot_time": ([], I64), "get_init_origin": ([I32], None),
     "state_lookup_entry": ([I32, I32], I64), "state_create_entry": ([I32, I32], I64), "state_delete_entry": ([I32, I32], I32),
     "state_delete_prefix": ([I32, I32], I32), "state_iterate_prefix": ([I32, I32], I64), "state_iterator_next": ([I64], I64),
     "state_iterator_delete": ([I64], I32), "state_iterator_key_size": ([I64], I32), "state_iterator_key_read": ([I64, I32, I32, I32], I32),
@@ -50,7 +50,7 @@ def i64c(n):
     return b"\x42" + sleb(n if n < 2 ** 63 else n - 2 ** 64)
 
 
-def build_contract(calls, sigs, data=b"", final_output=True, v0=False, data_at=None):
+def build_contract(calls, sigs, data=b"", final_output=True, v0=False, data_at=None, export="contract.entry"):
     """calls: list of (fname, [arg]) with arg = ("i32", n) | ("i64", n) | ("slot", k) (the i64 result of call k);
     every result is stored (as i64) in slot i; finally the slots are written to the return value (v1) or logged (v0)."""
     used = []
@@ -111,7 +111,7 @@ def build_contract(calls, sigs, data=b"", final_output=True, v0=False, data_at=N
     out += section(2, vec(imports))
     out += section(3, vec([uleb(entry_t)]))
     out += section(5, vec([b"\x00" + uleb(1)]))
-    out += section(7, vec([name("contract.entry") + b"\x00" + uleb(len(used))]))
+    out += section(7, vec([name(export) + b"\x00" + uleb(len(used))]))
     out += section(10, vec([uleb(len(code)) + code]))
     if data:
         out += section(11, vec([b"\x00" + i32c(DATA if data_at is None else data_at) + b"\x0b" + uleb(len(data)) + data]))
@@ -437,8 +437,10 @@ def run_scripts(ctx, recs, name):
 
 
 def v1_record(s, calls, data, energy=1 << 50):
-    wasm = build_contract(calls, SIGS_V1, data=data, data_at=CALL_AT if any(o["f"] == "invoke_call" for o in s["ops"]) else None)
-    return {"version": 1, "wasm": wasm.hex(), "param": PARAM[:s["pl"]].hex(), "energy": energy, "proto": s["proto"]}
+    init = s.get("entry") == "init"
+    wasm = build_contract(calls, SIGS_V1, data=data, data_at=CALL_AT if any(o["f"] == "invoke_call" for o in s["ops"]) else None,
+                          export="init_contract" if init else "contract.entry")
+    return {"version": 1, "wasm": wasm.hex(), "param": PARAM[:s["pl"]].hex(), "energy": energy, "proto": s["proto"], "entry": "init" if init else "receive"}
 
 
 def run_c14(ctx):
@@ -467,6 +469,7 @@ def run_c14(ctx):
             key = "%s:%s" % (e["f"], e["r"][0])
             hist[key] = hist.get(key, 0) + 1
         hist["outcome:" + res["outcome"]] = hist.get("outcome:" + res["outcome"], 0) + 1
+        hist["entry:" + s.get("entry", "receive")] = hist.get("entry:" + s.get("entry", "receive"), 0) + 1
         bad = check_v1_script(ctx, s, res, exp, calls)
         if bad:
             ctx.violation("v1 host script (P%d, parameter %d bytes): %s" % (s["proto"], s["pl"], bad), {"kind": "v1_script", "script": s, "result": res})
@@ -544,7 +547,7 @@ def run(ctx):
         raise ToolError("no check for %s" % ctx.prop)
     scripts, compiled, hist = run_c14(ctx)
     need = {"outcome:success": 500, "outcome:trap": 500, "outcome:interrupt": 50, "write_output:i": 100, "log_event:i": 200, "get_parameter_section:i": 200,
-            "invoke:trap": 50, "state:resume_same": 50, "state:resume_updated": 50, "v0_outcome:success": 500, "v0_outcome:reject": 500, "v0:write_state:i": 200, "v0:resize_state:i": 100, "v0:combine_and:i": 5, "state_scripts": 300, "state:write": 50, "state:iternext": 50, "budget_runs": 300}
+            "invoke:trap": 50, "entry:init": 500, "entry:receive": 500, "get_init_origin:void": 5, "state:resume_same": 50, "state:resume_updated": 50, "v0_outcome:success": 500, "v0_outcome:reject": 500, "v0:write_state:i": 200, "v0:resize_state:i": 100, "v0:combine_and:i": 5, "state_scripts": 300, "state:write": 50, "state:iternext": 50, "budget_runs": 300}
     for k, v in need.items():
         if hist.get(k, 0) < v:
             raise ToolError("vacuous C14 run: %s = %s (< %s)" % (k, hist.get(k, 0), v))
